@@ -52,7 +52,7 @@ func TestVerifC13Finalizer(t *testing.T) {
 	defer out.Close()
 	ctx := context.Background()
 	const height, round = 7, 1
-	hashes := []string{"blockA", "blockB", ""} // main, rest1, rest2 (nil block)
+	hashes := []string{"blockA", "", "blockB"} // main, rest1 (nil block), rest2
 	seen := map[string]bool{}
 	n, nDouble := 0, 0
 	schemes := map[string]bool{}
